@@ -116,7 +116,7 @@ CMP_ALL = [binop(r, a, b) for r in RELS for a in CMP_ATOMS for b in CMP_ATOMS]
 VARI_BODIES = [binop('>', ('var', 'i'), L(0)), binop('=', ('var', 'i'), X)]
 VARJ_BODIES = [binop('<', ('var', 'j'), AY), binop('>', ('var', 'j'), ('var', 'i'))]
 NEST_DOM1 = [XS, AYS, ('set', (L(1), L(2)))]
-NEST_DOM2 = [XS, AYS, ('range', L(0), L(1), False, False)]
+NEST_DOM2 = [XS, AYS, ('range', L(0), L(1), False, False), ('range', L(0), ('var', 'i'), False, False), ('set', (('var', 'i'), L(1)))]
 
 
 def _nested(qk1, qk2, d1, d2, vi, vj, pl, op1, op2, form):
